@@ -38,7 +38,7 @@ ReqVerdict(e) ==
   LET i == k + 1 IN
   IF i > Len(st) THEN "ExtraRequest"
   ELSE IF st[i].hv = "reject" THEN "RejectedReachedApp"
-  ELSE IF e.start # st[i].start THEN "StartOffset"
+  ELSE IF e.start \notin {st[i].start, st[i].start + st[i].lead} THEN "StartOffset"
   ELSE IF st[i].hend > Cut THEN "HeadIncomplete"
   ELSE IF ~PrevComplete THEN "BodyShort"
   ELSE IF T.mode = "read" /\ ~IsPrefix(e.data, st[i].data) THEN "BodyNotStrict"
